@@ -193,7 +193,9 @@ def run(ctx):
                     if k1 == k2:
                         # exactly the same temperature: float rounding of the offsets may make == False, but the
                         # two can never be ordered both ways and == / != must be complementary
-                        if got["eq"] == got["ne"] or (got["lt"] and got["gt"]):
+                        # ... and what == says binds the others: equal quantities are not less or greater, and are <= and >=
+                        if got["eq"] == got["ne"] or (got["lt"] and got["gt"]) or (got["eq"] and (got["lt"] or got["gt"] or not got["le"] or not got["ge"])) \
+                                or got["le"] != (got["lt"] or got["eq"]) or got["ge"] != (got["gt"] or got["eq"]):
                             ctx.violation("C10:comparison-incoherent-at-a-tie", f"{q1!r} vs {q2!r}: {got}", {})
                         continue
                     want = {"eq": False, "ne": True, "lt": k1 < k2, "le": k1 < k2, "gt": k1 > k2, "ge": k1 > k2}
